@@ -54,10 +54,17 @@ pub fn cli(out: &mut Out, dir: &str, file: &GenFile, tt: &TT, rng: &mut Rng, wha
         "sat" | "count-queries" => {
             let nq = 1 + rng.below(6);
             let mut qs: Vec<Vec<i32>> = Vec::new();
-            for _ in 0..nq { qs.push(rand_lits(rng, n, 1, 3)); }
+            for _ in 0..nq {
+                let mut q = rand_lits(rng, n, 1, 3);
+                // query lines are taken as they are: repeated literals (adjacent or not) and contradictions included
+                if rng.chance(0.3) { let l = q[0]; q.push(l); }
+                if rng.chance(0.15) { let l = q[rng.below(q.len())]; q.insert(0, l); }
+                if rng.chance(0.1) { let l = -q[0]; q.push(l); }
+                qs.push(q);
+            }
             let qfile = format!("{dir}/cli_queries.txt");
             std::fs::write(&qfile, qs.iter().map(|q| s(q).join(" ")).collect::<Vec<_>>().join("\n") + "\n").unwrap();
-            let j = 1 + rng.below(3);
+            let j = 1 + rng.below(4);
             let req = format!("CLI {what} {:?} -j {j}", qs);
             out.eval(Some(format!("{text}|{req}")));
             match run(&model, file, &[what.to_string(), qfile.clone(), "-j".into(), j.to_string()]) {
